@@ -114,6 +114,13 @@ def replay(case):
     evs.append(_dict_event("get_first_set", G, guard.call(parser.get_first_set)))
     evs.append(_dict_event("get_follow_set", G, guard.call(parser.get_follow_set)))
     evs.append(cfgh.bool_event("is_llone_parsable", G, guard.call(parser.is_llone_parsable)))
+    # the same parser object asked again after the verdict / the table was computed, and after a parse
+    evs.append(dict(_dict_event("get_follow_set", G, guard.call(parser.get_follow_set)), after="is_llone_parsable"))
+    evs.append(dict(_dict_event("get_first_set", G, guard.call(parser.get_first_set)), after="is_llone_parsable"))
+    guard.call(parser.get_llone_parsing_table)
+    guard.call(parser.get_llone_parse_tree, [cfgh.TERM_POOLS[case["tpool"]]["a"]], timeout=2.0)
+    evs.append(dict(_dict_event("get_follow_set", G, guard.call(parser.get_follow_set)), after="parse"))
+    evs.append(dict(cfgh.bool_event("is_llone_parsable", G, guard.call(parser.is_llone_parsable)), after="parse"))
     words = cfgh.words_upto(case["tpool"], case["L"], extra=("c",) if any("c" in b for _, b in case["prods"]) else ())
     if len(words) > 60:
         words = [w for w in words if len(w) <= 3]
